@@ -199,22 +199,25 @@ func simPick(pp *p) *g {
 	}
 	idx := -1
 	resumed := false
-	if r := simsched.resume.ptr(); r != nil {
-		simsched.resume = 0
-		for i := 0; i < n; i++ {
-			if simsched.buf[i].ptr() == r {
-				idx = i
-				simsched.preempt++
-				resumed = true
-				break
-			}
+	// Goroutines outside the bubble (the hang watchdog, the test's main goroutine) go first, even
+	// before a preempted goroutine is resumed: they take part in no decision, and a goroutine of the
+	// simulated system that spins without ever blocking must not be able to starve the watchdog.
+	for i := 0; i < n; i++ {
+		if simsched.buf[i].ptr().bubble == nil {
+			idx = i
+			break
 		}
 	}
 	if idx < 0 {
-		for i := 0; i < n; i++ {
-			if simsched.buf[i].ptr().bubble == nil {
-				idx = i
-				break
+		if r := simsched.resume.ptr(); r != nil {
+			simsched.resume = 0
+			for i := 0; i < n; i++ {
+				if simsched.buf[i].ptr() == r {
+					idx = i
+					simsched.preempt++
+					resumed = true
+					break
+				}
 			}
 		}
 	}
